@@ -212,6 +212,9 @@ def gen_structure(rng, tier, focus):
             ops.append(['renumber', c, rng.choice([1, 1, 5, 100, 9995]), rng.randrange(1, 6), rng.choice([0, 0, 3, 20])])
         if rng.random() < 0.04:
             ops.append(['icode', c, rng.randrange(10)])
+        if focus in ('C17', 'C03', 'C11') and rng.random() < 0.10:
+            ops.append(['renumber', c, 40, 0, 0])
+            ops.append(['renumber_restart', c, rng.randrange(10), rng.choice([1, 5, 10])])
         if rng.random() < 0.12:
             ops.append(['altloc', c, rng.randrange(1 << 20)])
         if rng.random() < 0.08:
@@ -666,7 +669,7 @@ def counter_only(seed, n):
 
 
 class C03Check(PCheck):
-    id = 'C03'
+    id = 'C03P'
     focus = 'C03'
     properties = ('C03',)
     rule = ('scenario = one simulated martinize2 run on a derived multi-chain structure (identical chains adjacent and interleaved, '
@@ -733,6 +736,7 @@ CHECK_C07P = core.register(C07PCheck())
 CHECK_C02P = core.register(C02PCheck())
 CHECK_C07 = core.register(Composite('C07', ['C07F', 'C07P'], 'fault_enumeration'))
 CHECK_C02 = core.register(Composite('C02', ['C02M', 'C02P'], 'exploration'))
+CHECK_C03X = core.register(Composite('C03', ['C03M', 'C03P'], 'exploration'))
 
 
 # ---------------------------------------------------------------------------
